@@ -236,6 +236,14 @@ def tree_set_native(P, ks, a):
             n._p_oid = b'replay%02d' % i
     pre_state = {id(n): n.__getstate__() for n in nodes}
     n_, v_ = a['n'], a['v']
+    oom = bool(P.get('oom'))
+    cmod = None
+    if oom:
+        import importlib
+        cmod = importlib.import_module('BTrees._%sBTree' % fam)
+        if not hasattr(cmod, '_verif_fail_alloc_after'):
+            raise RuntimeError('extension built without the BTREES_VERIF hook')
+        cmod._verif_fail_alloc_after(a['fa'])
     try:
         if op == 'delete':
             try:
@@ -263,8 +271,19 @@ def tree_set_native(P, ks, a):
             else:
                 t[n_] = v_
                 model[n_] = v_
+    except MemoryError:
+        if not oom:
+            fail('compiled tree %s raised MemoryError' % op, ctx, keys, n_)
+        if cmod._verif_fail_alloc_after(-1) <= a['fa']:
+            fail('MemoryError although no allocation was refused', ctx)
+        oom = 'fired'
+        got = list(t.keys()) if is_set else list(t.items())
+        if got == (sorted(before) if is_set else sorted(before.items())):
+            model = dict(before)
     except Exception as e:      # noqa
         fail('compiled tree %s raised %s on representable data' % (op, type(e).__name__), ctx, keys, n_)
+    if oom is True and cmod._verif_fail_alloc_after(-1) > a['fa']:
+        fail('an allocation was refused inside the call but no MemoryError reached the caller', ctx, keys, n_)
     # pins first: any later access to a node releases a forgotten pin again
     for n in nodes:
         if n._p_state == 2:
@@ -291,7 +310,7 @@ def tree_set_native(P, ks, a):
         if embedded and before != model and not t._p_changed:
             fail('the root embedding its only leaf was not announced after a change', ctx, keys, n_)
     # latent damage: keep using the tree
-    extra = [k for k in range(1, 12) if k not in model][:8]
+    extra = [k for k in range(1, 400 if oom else 12) if k not in model][:(300 if oom else 8)]
     try:
         for k in extra:
             if is_set:
